@@ -759,3 +759,16 @@ PROPS['C20']['explanation'] = PROPS['C20']['explanation'] + (" Regenerated tie: 
     "(length test, the two copies, the counter, the used marks, the nested loops with continue / mark / count / break, the final comparison; anything else `.unknown`), "
     "and EntryList_Equal_is_model proves that evaluating the regenerated statements is the model's `equal` (C20_iff: list permutation).")
 PROPS['C20']['technique'] = PROPS['C20']['technique'] + '; Equal is additionally tied by translation (statements regenerated from the Go source on every run, proved to evaluate to the model)'
+
+# ---- handshake helpers, makeChunkID and the Chunk() methods (translator/handshake.go -> Gen/Handshake.lean, Sk/Handshake.lean, Tie/Handshake.lean)
+_SKH_TEXT = (" Regenerated tie for the handshake helpers and the chunk ids: computeHexDigest, validateDigest, ValidatePingDigest, ValidatePongDigest, makePing, NewPing, "
+             "NewPingWithAuth, NewPong, makeChunkID and the four Chunk() methods are re-read on every run, each statement recognised by its exact source text "
+             "(anything else `.unknown`), and proved to evaluate to hexDigest (salt, hostname, nonce, key written to the hash in that order), validatePing / "
+             "validatePong, pingMsg, newPong, makeChunkID and chunkCall (Tie/Handshake.lean).")
+for _p, _ths in (('C05', ['FV.Tie.computeHexDigest_is_model', 'FV.Tie.validateDigest_is_model', 'FV.Tie.ValidatePingDigest_is_model', 'FV.Tie.ValidatePongDigest_is_model',
+                          'FV.Tie.NewPing_is_model', 'FV.Tie.NewPong_is_model']),
+                 ('C12', ['FV.Tie.makeChunkID_is_model', 'FV.Tie.Chunk_is_model', 'FV.Tie.Chunk_bodies_equal'])):
+    PROPS[_p]['translator'] = True
+    PROPS[_p]['lean_modules'] = PROPS[_p]['lean_modules'] + ['FluentVerif.Tie.Handshake']
+    PROPS[_p]['theorems'] = PROPS[_p]['theorems'] + _ths
+    PROPS[_p]['explanation'] = PROPS[_p]['explanation'] + _SKH_TEXT
